@@ -33,6 +33,8 @@ use rustc_hash::FxHasher;
 
 use oxidd_core::error::{DuplicateVarName, OutOfMemory};
 use oxidd_core::function::EdgeOfFunc;
+#[cfg(oxidd_verif)]
+use oxidd_core::util::verif_locks as vl;
 use oxidd_core::util::{AbortOnDrop, AllocResult, Borrowed, DropWith, VarNameMap};
 use oxidd_core::{DiagramRules, InnerNode, LevelNo, ManagerEventSubscriber, Tag, VarNo};
 
@@ -634,6 +636,8 @@ where
         delta: i32,
     ) -> AllocResult<(u32, &mut Slot<N>)> {
         let mut shared = self.state.lock();
+        #[cfg(oxidd_verif)]
+        let _tok = vl::token(vl::Class::StoreState, 0, vl::Mode::Excl, true);
 
         shared.node_count += delta as i64;
         if shared.gc_state == GCState::Init && shared.node_count >= shared.gc_hwm as i64 {
@@ -740,6 +744,8 @@ where
                     state.node_count_delta.set(delta);
                 } else {
                     let mut shared = self.state.lock();
+                    #[cfg(oxidd_verif)]
+                    let _tok = vl::token(vl::Class::StoreState, 0, vl::Mode::Excl, true);
                     shared.next_free.push(state.next_free.replace(0));
                     shared.node_count += state.node_count_delta.replace(0) as i64;
                 }
@@ -747,6 +753,8 @@ where
                 #[cold]
                 fn return_slot<N>(shared: &Mutex<SharedStoreState>, slot: &mut Slot<N>, id: u32) {
                     let mut shared = shared.lock();
+                    #[cfg(oxidd_verif)]
+                    let _tok = vl::token(vl::Class::StoreState, 0, vl::Mode::Excl, true);
                     slot.next_free = shared.next_free.pop().unwrap_or(0);
                     shared.next_free.push(id);
                     shared.node_count -= 1;
@@ -873,6 +881,8 @@ where
                 };
 
                 let mut shared = shared_state.lock();
+                #[cfg(oxidd_verif)]
+                let _tok = vl::token(vl::Class::StoreState, 0, vl::Mode::Excl, true);
                 if next_free != 0 {
                     shared.next_free.push(next_free);
                 }
@@ -1028,6 +1038,8 @@ where
             return false;
         };
         let mut set = set.lock();
+        #[cfg(oxidd_verif)]
+        let _tok = vl::token(vl::Class::Level, level, vl::Mode::Excl, true);
 
         // Read the reference count again: Another thread may have created an
         // edge between our `node.release()` call and `set.lock()`.
@@ -1058,15 +1070,36 @@ where
 
     #[inline]
     fn num_inner_nodes(&self) -> usize {
-        self.unique_table
+        #[cfg(not(oxidd_verif))]
+        let count = self
+            .unique_table
             .iter()
             .map(|level| level.lock().len())
-            .sum()
+            .sum();
+        #[cfg(oxidd_verif)]
+        let count = self
+            .unique_table
+            .iter()
+            .enumerate()
+            .map(|(i, level)| {
+                let level = level.lock();
+                let _tok = vl::token(vl::Class::Level, i as u32, vl::Mode::Excl, true);
+                level.len()
+            })
+            .sum();
+        count
     }
 
     #[inline]
     fn approx_num_inner_nodes(&self) -> usize {
+        #[cfg(not(oxidd_verif))]
         let count = self.store().state.lock().node_count;
+        #[cfg(oxidd_verif)]
+        let count = {
+            let shared = self.store().state.lock();
+            let _tok = vl::token(vl::Class::StoreState, 0, vl::Mode::Excl, true);
+            shared.node_count
+        };
         if count < 0 { 0 } else { count as u64 as usize }
     }
 
@@ -1213,6 +1246,8 @@ where
             allow_node_removal: self.reorder_gc_prepared,
             level: no,
             set: self.unique_table[no as usize].lock(),
+            #[cfg(oxidd_verif)]
+            _tok: vl::token(vl::Class::Level, no, vl::Mode::Excl, true),
         }
     }
 
@@ -1225,6 +1260,8 @@ where
             level: no,
             // SAFETY: ensured by caller
             set: unsafe { self.unique_table.get_unchecked(no as usize) }.lock(),
+            #[cfg(oxidd_verif)]
+            _tok: vl::token(vl::Class::Level, no, vl::Mode::Excl, true),
         }
     }
 
@@ -1258,8 +1295,12 @@ where
     fn gc(&self) -> usize {
         if !self.gc_ongoing.try_lock() {
             // We don't want two concurrent garbage collections
+            #[cfg(oxidd_verif)]
+            vl::try_failed(vl::Class::GcOngoing, 0);
             return 0;
         }
+        #[cfg(oxidd_verif)]
+        vl::acquired(vl::Class::GcOngoing, 0, vl::Mode::Excl, false);
         self.gc_count.fetch_add(1, Relaxed);
         let guard = AbortOnDrop("Garbage collection panicked.");
 
@@ -1278,8 +1319,16 @@ where
 
         let store = self.store();
         let mut collected = 0;
+        #[cfg(oxidd_verif)]
+        let mut level_no = 0;
         for level in &self.unique_table {
             let mut level = level.lock();
+            #[cfg(oxidd_verif)]
+            let _tok = vl::token(vl::Class::Level, level_no, vl::Mode::Excl, true);
+            #[cfg(oxidd_verif)]
+            {
+                level_no += 1;
+            }
             collected += level.len() as u32;
             // SAFETY: We prepared the garbage collection, hence there are no
             // "weak" edges.
@@ -1292,6 +1341,8 @@ where
             // SAFETY: We called `pre_gc`, the garbage collection is done.
             unsafe { self.data.post_gc(self) };
         }
+        #[cfg(oxidd_verif)]
+        vl::released(vl::Class::GcOngoing, 0);
         self.gc_ongoing.unlock();
         guard.defuse();
 
@@ -1645,6 +1696,10 @@ where
     /// (i.e., there are no "weak" edges).
     allow_node_removal: bool,
     level: LevelNo,
+    /// Lock-trace instrumentation: logs the release of the level's mutex.
+    /// Declared before `set` such that it is dropped before the guard.
+    #[cfg(oxidd_verif)]
+    _tok: vl::Token,
     set: MutexGuard<'a, LevelViewSet<'id, N, ET, TM, R, MD, TERMINALS>>,
 }
 
@@ -1976,6 +2031,8 @@ where
             allow_node_removal: self.allow_node_removal,
             level,
             set: mutex.lock(),
+            #[cfg(oxidd_verif)]
+            _tok: vl::token(vl::Class::Level, level, vl::Mode::Excl, true),
         })
     }
 
@@ -2026,6 +2083,8 @@ where
             allow_node_removal: self.allow_node_removal,
             level: self.level_back,
             set: mutex.lock(),
+            #[cfg(oxidd_verif)]
+            _tok: vl::token(vl::Class::Level, self.level_back, vl::Mode::Excl, true),
         })
     }
 }
@@ -2069,7 +2128,16 @@ impl<
             // This is the second last reference. The last reference belongs to
             // the gc thread. Terminate it.
             let gc_signal = &self.0.gc_signal;
-            *gc_signal.0.lock() = GCSignal::Quit;
+            #[cfg(not(oxidd_verif))]
+            {
+                *gc_signal.0.lock() = GCSignal::Quit;
+            }
+            #[cfg(oxidd_verif)]
+            {
+                let mut lock = gc_signal.0.lock();
+                let _tok = vl::token(vl::Class::GcSignal, 0, vl::Mode::Excl, true);
+                *lock = GCSignal::Quit;
+            }
             gc_signal.1.notify_one();
         }
     }
@@ -2222,7 +2290,14 @@ impl<
         F: for<'id> FnOnce(&Self::Manager<'id>) -> T,
     {
         let local_guard = self.0.prepare_local_state();
+        #[cfg(not(oxidd_verif))]
         let res = f(&self.0.manager.shared());
+        #[cfg(oxidd_verif)]
+        let res = {
+            let guard = self.0.manager.shared();
+            let _tok = vl::token(vl::Class::Mgr, 0, vl::Mode::Shared, true);
+            f(&guard)
+        };
         drop(local_guard);
         res
     }
@@ -2232,7 +2307,14 @@ impl<
         F: for<'id> FnOnce(&mut Self::Manager<'id>) -> T,
     {
         let local_guard = self.0.prepare_local_state();
+        #[cfg(not(oxidd_verif))]
         let res = f(&mut self.0.manager.exclusive());
+        #[cfg(oxidd_verif)]
+        let res = {
+            let mut guard = self.0.manager.exclusive();
+            let _tok = vl::token(vl::Class::Mgr, 0, vl::Mode::Excl, true);
+            f(&mut guard)
+        };
         drop(local_guard);
         res
     }
@@ -2308,7 +2390,11 @@ pub fn new_manager<
     });
 
     let mut manager = arc.manager.exclusive();
+    #[cfg(oxidd_verif)]
+    let tok = vl::token(vl::Class::Mgr, 0, vl::Mode::Excl, true);
     manager.store = Arc::as_ptr(&arc);
+    #[cfg(oxidd_verif)]
+    drop(tok);
     drop(manager);
 
     let store_addr = addr(&*arc);
@@ -2328,15 +2414,25 @@ pub fn new_manager<
             let store = &*gc_mref.0;
             loop {
                 let mut lock = store.gc_signal.0.lock();
+                #[cfg(oxidd_verif)]
+                let tok = vl::token(vl::Class::GcSignal, 0, vl::Mode::Excl, true);
                 // The last `ManagerRef` may have been dropped (and `Quit`
                 // signalled) before this thread started waiting. Notifications
                 // are not queued, so check the signal first.
                 if *lock != GCSignal::Quit {
+                    #[cfg(oxidd_verif)]
+                    vl::wait_begin(vl::Class::GcSignal, 0);
                     store.gc_signal.1.wait(&mut lock);
+                    #[cfg(oxidd_verif)]
+                    vl::wait_end(vl::Class::GcSignal, 0);
                 }
                 if *lock == GCSignal::Quit {
+                    // (with the lock-trace instrumentation: `tok` is declared
+                    // after `lock` and thus dropped before it)
                     break;
                 }
+                #[cfg(oxidd_verif)]
+                drop(tok);
                 drop(lock);
 
                 // parking_lot `Condvar`s have no spurious wakeups -> run gc now
@@ -2345,6 +2441,8 @@ pub fn new_manager<
                 });
 
                 let mut shared = store.state.lock();
+                #[cfg(oxidd_verif)]
+                let _tok = vl::token(vl::Class::StoreState, 0, vl::Mode::Excl, true);
                 LOCAL_STORE_STATE.with(|local| {
                     if local.next_free.get() != 0 {
                         shared.node_count += local.node_count_delta.replace(0) as i64;
@@ -2362,7 +2460,14 @@ pub fn new_manager<
 
     // initialize the manager data
     let local_guard = arc.prepare_local_state();
+    #[cfg(not(oxidd_verif))]
     arc.manager.exclusive().init();
+    #[cfg(oxidd_verif)]
+    {
+        let mut guard = arc.manager.exclusive();
+        let _tok = vl::token(vl::Class::Mgr, 0, vl::Mode::Excl, true);
+        guard.init();
+    }
     drop(local_guard);
 
     ManagerRef(arc)
@@ -2553,7 +2658,14 @@ unsafe impl<
         F: for<'id> FnOnce(&Self::Manager<'id>, &EdgeOfFunc<'id, Self>) -> T,
     {
         let local_guard = self.store.0.prepare_local_state();
+        #[cfg(not(oxidd_verif))]
         let res = f(&self.store.0.manager.shared(), &self.edge);
+        #[cfg(oxidd_verif)]
+        let res = {
+            let guard = self.store.0.manager.shared();
+            let _tok = vl::token(vl::Class::Mgr, 0, vl::Mode::Shared, true);
+            f(&guard, &self.edge)
+        };
         drop(local_guard);
         res
     }
@@ -2563,7 +2675,14 @@ unsafe impl<
         F: for<'id> FnOnce(&mut Self::Manager<'id>, &EdgeOfFunc<'id, Self>) -> T,
     {
         let local_guard = self.store.0.prepare_local_state();
+        #[cfg(not(oxidd_verif))]
         let res = f(&mut self.store.0.manager.exclusive(), &self.edge);
+        #[cfg(oxidd_verif)]
+        let res = {
+            let mut guard = self.store.0.manager.exclusive();
+            let _tok = vl::token(vl::Class::Mgr, 0, vl::Mode::Excl, true);
+            f(&mut guard, &self.edge)
+        };
         drop(local_guard);
         res
     }
